@@ -56,3 +56,24 @@ META["C10"] = {
     "note": "Container sizes <= 3; index values unbounded (symbolic). Trusted: go/ssa, symgo semantics and reflect model (validated on the repo's scripts in every run), z3.",
     "technique": "symbolic execution of go/ssa + SMT (z3), differential against mirror Go values, native replay",
 }
+
+META["C07"] = {
+    "text": "Every operand of every call form (Go/script callee, fixed/variadic, 0..6 parameters, plain/spread, direct/anonymous/go/defer), literal, operator, index/slice expression, return list and multi-assignment is a logging probe, one of which may fail: symbolic execution of the real call machinery (callExpr, makeCallArgs, anonCallExpr, runDeferStmt, the operator and literal functions) must log every tag at most once, in increasing order, completely on success and exactly up to the failing operand otherwise; && || ?: ?? must evaluate only the operands the result depends on.",
+    "design_ref": "DESIGN.md §5 C07",
+    "note": "Forms are enumerated by forking (no symbolic payload is needed); the deciding step is exhaustive bounded exploration of the real code under the engine's reflect model.",
+    "technique": "symbolic execution of go/ssa (bounded exhaustive exploration), probe-trace oracle, native replay",
+}
+
+META["C08"] = {
+    "text": "Differential against a reference control-flow interpreter over abstract programs: the real runStmtsStmt/runIfStmt/runSwitchStmt/loop functions/runTryStmt/function call boundary are executed on every statement skeleton within the bound, with every leaf a probed statement of chosen outcome and every condition a probed call with a chosen truth sequence; probe trace, error status and returned value must equal the reference (first truthy branch, first equal case, body while condition, break/continue consumed by the innermost loop with the post expression after continue, return leaving the invocation).",
+    "design_ref": "DESIGN.md §5 C08",
+    "note": "Skeletons/outcomes/truth values are enumerated by forking. Known finding (recorded, the repo's tests assert it): try/catch catches break/continue/return leaving its try block.",
+    "technique": "symbolic execution of go/ssa (bounded exhaustive exploration), differential against a reference interpreter, unwinding assertions, native replay",
+}
+
+META["C09"] = {
+    "text": "Same machinery as C08 with the try/defer oracle: catch runs iff the try body failed, finally after a body that succeeded or whose error was caught, nothing after an uncaught error except the deferred calls of the invocations being left, every deferred call exactly once in LIFO order, the invocation's result unchanged, a deferred error surfacing iff the body did not fail.",
+    "design_ref": "DESIGN.md §5 C09",
+    "note": "As C08. Known finding shared with C08 (control signals through try).",
+    "technique": "symbolic execution of go/ssa (bounded exhaustive exploration), differential against a reference interpreter, native replay",
+}
